@@ -240,11 +240,17 @@ Fixpoint utf16_ok (l : list Z) : bool :=
       end
   end.
 
+(* CPython's sys.get_int_max_str_digits(): int(text) and "%d" % v raise ValueError beyond it
+   (digits counted without the sign, leading zeros included) *)
+Definition MAX_STR_DIGITS : nat := 4300.
+Definition int_ok (z : Z) : bool := (length (dec_digits (Z.abs z)) <=? MAX_STR_DIGITS)%nat.
+
 (* kls.frombytes(token) for the token classes with a registered class *)
 Definition leaf_of (k : kind) (b : list Z) : res tree :=
   match k with
   | KBool => Ok (TBool (list_eqb b [116;114;117;101]))
-  | KNum => Ok (TInt (int_of_bytes b))
+  | KNum => if (MAX_STR_DIGITS <? length (strip_minus b))%nat then Err ValueErr      (* int(): digit limit *)
+            else Ok (TInt (int_of_bytes b))
   | KDec => Ok (TFloat (float_of_bytes b))
   | KProp => Ok (TProp (filter (fun x => negb (x =? 47)) b))                 (* data.replace(b"/", b"") *)
   | KStr => let p := skipn 2 (unescape (removelast (tl b))) in                (* data[1:-1], BOM consumed *)
@@ -462,10 +468,20 @@ Definition centry (ind : option nat) (kv : list Z * tree) : Z :=
 Fixpoint zsum (l : list Z) : Z := match l with [] => 0 | x :: r => x + zsum r end.
 Definition centries (ind : option nat) (d : kvs) : Z := zsum (map (centry ind) d).
 
+(* ValueError of  b"%d" % value  for an Integer of more than 4300 digits, anywhere in the tree *)
+Fixpoint wbig (t : tree) : bool :=
+  match t with
+  | TDict d => (fix go (l : kvs) : bool := match l with [] => false | kv :: r => wbig (snd kv) || go r end) d
+  | TList items => (fix go (l : list tree) : bool := match l with [] => false | it :: r => wbig it || go r end) items
+  | TInt z => negb (int_ok z)
+  | _ => false
+  end.
+
 Inductive layout := Indented | Compact.
 (* EngineData(d).tobytes()  = Dict.write(fp, indent=0, write_container=True)
    EngineData2(d).tobytes() = Dict.write(fp, indent=None, write_container=False) *)
 Definition write (ly : layout) (d : kvs) : res (list Z) :=
+  if wbig (TDict d) then Err ValueErr else
   match ly with
   | Indented => Ok (wv (Some O) (TDict d))
   | Compact => Ok (wentries None d)
@@ -484,7 +500,8 @@ Definition clean (tok : list Z) : bool :=
 Definition wf_leaf (t : tree) : bool :=
   match t with
   | TStr p => utf16_ok p
-  | TInt _ | TBool _ => true
+  | TInt z => int_ok z
+  | TBool _ => true
   | TFloat f => (0 <=? fmag f) && negb (ftiny f)
   | TProp n => name_ok n
   | TTag b => (kind_eqb (classify b) KTag || kind_eqb (classify b) KTag2) && clean b
